@@ -292,6 +292,38 @@ def r13f(ctx, rep, cr):
     rep.floor('R13f', 'coordinator functions checked', n, 5)
 
 
+def r13g(ctx, rep, cr):
+    rep.rule('R13g', 'every unfinished transaction in the log is classified: in TxRecoveryState::classify_in_progress no iteration of the loop '
+                     'over the replayed transactions reaches the next one without passing the dispatch on the replayed phase. A sanity '
+                     'filter in front of the dispatch ("more votes than participants = damaged") silently forgets transactions whose log '
+                     'is legitimate — record_vote appends a vote before it validates it, so a refused duplicate is in the log — and a '
+                     'Prepared or Committing transaction is gone after the next restart')
+    f = rep.require_fn('R13g', cr, TXW + 'TxRecoveryState::classify_in_progress')
+    if f is None:
+        return
+    ds = lib.enum_dispatches(f, T.PHASE_ENUM)
+    if not ds:
+        rep.violation('R13g', f, 'dispatch', f.loc(), 'anchor-missing: classify_in_progress has no switch on TxPhase')
+        return
+    rep.analysed(f)
+    sw = ds[0][0]
+    dom = A.dominators(f)
+    uses = A.Uses(f)
+    heads = [x for x in A.calls(f) if (re.search(r'Iterator>?::next$', x.generic) or re.search(r'Iterator>?::next$', x.resolved)) and x.bb in dom[sw]]
+    if not heads:
+        rep.holds('R13g', f, 'dispatch', 'not in a loop')
+        return
+    h = max(heads, key=lambda x: len(dom[x.bb]))
+    some = [t for (_, t) in A.call_outcome(f, h, uses).ok] or ([h.target] if h.target is not None and h.target >= 0 else [])
+    R = A.reachable(f, some, cut_blocks={sw, h.bb})
+    if any(h.bb in A.succs(f, b_) for b_ in R):
+        rep.violation('R13g', f, 'transaction-skipped-before-dispatch', f.loc(),
+                      'an unfinished transaction can be passed over without being classified by its phase: it is not restored, and its '
+                      'logged votes or decision are lost at this restart')
+    else:
+        rep.holds('R13g', f, 'dispatch', 'every replayed transaction reaches the phase dispatch')
+
+
 def run(ctx, rep):
     cr = ctx.crate('tensor_chain')
     wal_rules.r02b(ctx, rep, ['TxWal'])
@@ -310,3 +342,4 @@ def run(ctx, rep):
     r13d(ctx, rep, cr)
     r13e(ctx, rep, cr)
     r13f(ctx, rep, cr)
+    r13g(ctx, rep, cr)
